@@ -119,21 +119,30 @@ impl BlockEncoder {
 
             self.nb_pkt_sent += 1;
 
+            let is_last_symbol = *is_last_symbol;
+            let payload = symbol.symbols.to_vec();
+            let esi = symbol.esi;
+            let sbn = symbol.sbn;
+            let source_block_length = block.nb_source_symbols as u32;
+
+            // Last packet of the transfer: all the source symbols have been sent
+            // and no block (interleaved with this one) has a symbol left
             let is_last_packet = (self.source_size_transferred
                 >= self.file.object.transfer_length as usize)
-                && *is_last_symbol;
+                && is_last_symbol
+                && self.blocks.iter().all(|block| block.is_empty());
 
             return Some(pkt::Pkt {
-                payload: symbol.symbols.to_vec(),
+                payload,
                 transfer_length: self.file.object.transfer_length,
-                esi: symbol.esi,
-                sbn: symbol.sbn,
+                esi,
+                sbn,
                 toi: self.file.toi,
                 fdt_id: self.file.fdt_id,
                 cenc: self.file.object.config.cenc,
                 inband_cenc: self.file.object.config.inband_cenc,
                 close_object: force_close_object || (self.closabled_object && is_last_packet),
-                source_block_length: block.nb_source_symbols as u32,
+                source_block_length,
                 sender_current_time: self.file.sender_current_time,
             });
         }
